@@ -192,12 +192,15 @@ type Unit struct {
 	nreturns   int
 	stale      []string
 	lastSortPi, lastSortInv string
+	elemWrite  int
 }
 
 type recorder struct {
 	vars  map[types.Object]bool
 	heaps map[string]bool
 	ghost map[string]bool
+	elemOnly map[types.Object]bool // slice variables written only through s[i] = v
+	fullVar  map[types.Object]bool
 	refs  map[string][]*Term // heap -> object refs written (when all writes are simple stores)
 	whole map[string]bool    // heap replaced wholesale
 	startSym int
@@ -251,6 +254,13 @@ func (u *Unit) varSet(st *State, obj types.Object, t *Term) {
 	st.vars[obj] = t
 	if u.recording != nil {
 		u.recording.vars[obj] = true
+		if u.elemWrite > 0 {
+			if u.recording.elemOnly != nil {
+				u.recording.elemOnly[obj] = true
+			}
+		} else if u.recording.fullVar != nil {
+			u.recording.fullVar[obj] = true
+		}
 	}
 }
 
